@@ -470,6 +470,47 @@ CLAIMED['C13'] = dict(
          'matcher/seed round trip, not proved). A null _id cannot be told from "no upsert" in '
          'UpdateResult (hypothesis id ≠ null). One defect found and fixed in /repo: nullid.')
 
+CLAIMED['C16'] = dict(
+    technique='Lean 4 theorems about a heap-level model of Collection.aggregate (object identities '
+              'of store, caller and run-local objects; per-stage edit discipline REGENERATED from '
+              'mongomock/aggregate.py): frame lemmas, read-only for non-writing stages, '
+              'repeatability, refutations of the full statements by the known findings; tied to '
+              'the code by the discipline translator, model correspondence and direct '
+              'before/after oracles on the real objects',
+    text='A translator reads mongomock/aggregate.py and collection.py (AST) and regenerates '
+         'Generated/AggDiscipline.lean: for each stage handler whether it builds new documents, '
+         'shallow-copies then writes nested paths in place, writes into its input document, '
+         'deep-copies, mutates its options, and how aggregate obtains its working list; theorem '
+         'discipline_current (by decide) ties the table to the reference the other theorems are '
+         'about. Lean 4 theorems about MongoModel/AggHeap.lean: an in-place write to a non-store '
+         'object leaves every collection identical, and leaves the pipeline object identical when '
+         'the written object was allocated by the run (frame lemmas, all worlds); under the '
+         'reference discipline every object of the working list is a new object of the call '
+         '(find() copies); a deep copy equals its source as a value; every stage that performs no '
+         'in-place write (select, project, unwind, replaceRoot, count) leaves collections, '
+         'indexes, pipeline and the facet stack unchanged for every discipline '
+         '(aggregate_readonly_partial); a call that leaves collections, index entries, pipeline '
+         'and store counter unchanged returns the same answer when run again (repeatable). The '
+         'full statements "the pipeline argument is never modified" and "facet branches are '
+         'isolated" are refuted in Lean by the known findings\' witnesses '
+         '(pipeline_arg_unchanged_full_fails, sample_second_run_fails, facet_isolated_full_fails, '
+         'facet_isolated_full_fails_lookup), which nevertheless leave the store unchanged. Tie: '
+         'generated pipelines emphasising document-editing stages ($addFields/$set on nested '
+         'paths, $lookup, $unwind, $project, $facet with editing branches, $sample, $out) over '
+         '2-3 collections; on /repo: every collection (raw store, find, index_information, names) '
+         'and the pipeline object (by value and by identity of every nested container) before / '
+         'after, the same pipeline object run twice, every $facet branch against its stand-alone '
+         'run on the very objects the prefix returns, $out target == returned == prefix output, '
+         '$sample sub-multiset of the requested size, scribbling on returned documents must not '
+         'reach the store; on the modelled fragment all of these answers are compared with the '
+         'compiled model exactly.',
+    note='Partial: the induction carrying "no store identity occurs in the working data" through '
+         'the writing stages ($lookup, nested $addFields, $sample, $facet), the $out theorems and '
+         'the $sample Subperm theorem are not proved; those clauses rest on the direct oracles '
+         'and the correspondence. $group, $graphLookup, $bucket and expression operators are '
+         'outside the modelled fragment (direct oracles only). Known findings: sample-pops-size, '
+         'facet-sibling-nested-addfields, facet-sibling-lookup, literal-written.')
+
 PENDING = {
     'C02': 'model (MongoModel/Update.lean) and correspondence exist; theorems not yet proved',
     'C03': 'in progress: pipeline model depends on the expression model (C04)',
